@@ -45,11 +45,20 @@ def _n(ctx, quick, thorough):
     return quick if ctx.tier == "quick" else thorough
 
 
-def marker_runner(oracle, quick, thorough, rule, explanation):
+def marker_runner(oracle, quick, thorough, rule, explanation, smark_pairs=None):
     def run(ctx: Ctx):
         ctx.level = "other"
         ctx.trusted_base = MARKER_TRUST
         ctx.coverage["explanation"] = explanation
+        if smark_pairs:
+            # the tie between Model/Marker.v and dep_logic.markers (structure of parse/&/|/only/exclude results, evaluation)
+            import coqrun
+            import smark
+            ok, log, _ = coqrun.build(["Model/CorrMarker.vo"])
+            if not ok:
+                ctx.broke("proof", "Model/Marker.v / Model/CorrMarker.v do not build", log[-1500:])
+            else:
+                smark.stream_smark(ctx, smark_pairs if ctx.tier == "quick" else smark_pairs * 12)
         oracle(ctx, _n(ctx, quick, thorough))
         ctx.coverage["rule"] = rule
     return run
@@ -63,13 +72,13 @@ PENDING = ("the Coq model of the marker normaliser is not finished: this check c
            "oracle on the implementation; see DESIGN.md section 5 for the theorem it will be replaced by")
 
 REGISTRY.update({
-    "C02": marker_runner(pm.oracle_c02, 500, 8000, GEN_RULE, PENDING),
+    "C02": marker_runner(pm.oracle_c02, 500, 8000, GEN_RULE, PENDING, smark_pairs=150),
     "C03": marker_runner(pm.oracle_c03, 700, 10000, GEN_RULE, PENDING),
     "C07": marker_runner(pm.oracle_c07, 300, 5000, GEN_RULE, PENDING),
     "C10": marker_runner(pm.oracle_c10, 250, 4000, "random histories of parse/&/| over key-equal spelling families followed by a probe; warm result vs result after cache_clear()", PENDING),
     "C11": marker_runner(lambda ctx, n: pm.oracle_c11(ctx), 0, 0, "every operator x operand length x variable atom, every simple specifier as from_specifier input, interpreters X.Y.Z on a grid around the operands", PENDING),
-    "C12": marker_runner(pm.oracle_c12, 250, 4000, GEN_RULE, PENDING),
-    "C15": marker_runner(pm.oracle_c15, 500, 8000, GEN_RULE, PENDING),
+    "C12": marker_runner(pm.oracle_c12, 250, 4000, GEN_RULE, PENDING, smark_pairs=100),
+    "C15": marker_runner(pm.oracle_c15, 500, 8000, GEN_RULE, PENDING, smark_pairs=100),
 })
 
 
